@@ -587,3 +587,109 @@ def _bucket_pos(interp, args, kwargs, node):
         f = interp.ctx.fresh_fun("bucket_pos", INT, INT)
         d.bucket_pos_f = f
     return VInt(f(to_int(p)))
+
+
+# ---- weighted edit distance, rapidfuzz.process.cdist, squareform ---------------------------------------------
+wlev_f = z3.Function("wlev", STR, STR, INT, INT, INT, INT)     # wlev(a, b, ins, del, sub): min total weight of edits turning a into b
+
+
+def wlev_axioms(ctx):
+    if ("ax", "wlev") in ctx.axioms_added:
+        return
+    ctx.axioms_added.add(("ax", "wlev"))
+    a, b = z3.Const("a!w", STR), z3.Const("b!w", STR)
+    ctx.assume_global(z3.ForAll([a, b], wlev_f(a, b, 1, 1, 1) == lev_f(a, b), patterns=[wlev_f(a, b, 1, 1, 1)]),
+                      "spec:wlev with unit weights is the Levenshtein distance")
+
+
+_rf_lev_plain = E.EXTERNS["rapidfuzz.distance.Levenshtein.distance"]
+
+
+def rf_lev_weighted(interp, args, kwargs, node):
+    if set(kwargs) == {"weights"} and isinstance(kwargs["weights"], VTuple) and len(kwargs["weights"].items) == 3:
+        a, b = args
+        w = [to_int(x) for x in kwargs["weights"].items]
+        wlev_axioms(interp.ctx)
+        interp.ctx.assumed.add("extern:rapidfuzz Levenshtein.distance(a, b, weights=(insertion, deletion, substitution)) is the minimum "
+                               "total weight of edits turning a into b (C++ extension: assumed)")
+        return VInt(wlev_f(a.term, b.term, w[0], w[1], w[2]))
+    return _rf_lev_plain(interp, args, kwargs, node)
+
+
+for _n in ("rapidfuzz.distance.Levenshtein.distance", "rapidfuzz.distance.Levenshtein.distance"):
+    E.EXTERNS[_n] = rf_lev_weighted
+E.SUBMODULES.update({"rapidfuzz", "rapidfuzz.distance", "rapidfuzz.distance.Levenshtein", "rapidfuzz.process"})
+
+
+@S.spec("wlev")
+def _wlev(interp, args, kwargs, node):
+    wlev_axioms(interp.ctx)
+    axioms(interp.ctx, "lev-basic")
+    a, b, i, d, s = args
+    return VInt(wlev_f(a.term, b.term, to_int(i), to_int(d), to_int(s)))
+
+
+@S.spec("wlev_scorer")
+def _wlev_scorer(interp, args, kwargs, node):
+    i, d, s = [to_int(x) for x in args]
+    wlev_axioms(interp.ctx)
+
+    def call(interp2, a, kw, node2):
+        return VInt(wlev_f(a[0].term, a[1].term, i, d, s))
+    return VFunc("pyfn", "wlev_scorer", data=call)
+
+
+@S.spec("apply2")
+def _apply2(interp, args, kwargs, node):
+    f, a, b = args
+    return interp.call(f, [a, b], {}, node)
+
+
+@extern("rapidfuzz.process.cdist")
+def rf_cdist(interp, args, kwargs, node):
+    """process.cdist(queries, choices, scorer=s): matrix M[i, j] = s(queries[i], choices[j]) by POSITION; the default dtype is wide
+    enough for the scores (no wrap-around).  A dtype argument is not part of the assumed contract."""
+    from .ext_numpy import VMatrix
+    A, Bc = args[0], args[1]
+    scorer = kwargs.get("scorer")
+    if "dtype" in kwargs:
+        raise Unsupported("rapidfuzz.process.cdist(dtype=...): narrowing dtypes wrap around and are outside the assumed contract")
+    va, vb = E.ordered_view(interp, A, node), E.ordered_view(interp, Bc, node)
+    if va is None or vb is None:
+        raise Unsupported("process.cdist over unordered collections")
+    interp.ctx.assumed.add("extern:rapidfuzz.process.cdist(A, B, scorer)[i, j] = scorer(A[i], B[j]) by position, default dtype wide enough")
+    return interp.born(VMatrix(va[0], vb[0], lambda r, c: interp.call(scorer, [va[1](r), vb[1](c)], {}, node)))
+
+
+@S.spec("scorer_matrix")
+def _scorer_matrix(interp, args, kwargs, node):
+    from .ext_numpy import VMatrix
+    f, A, Bc = args
+    va, vb = E.ordered_view(interp, A, node), E.ordered_view(interp, Bc, node)
+    return VMatrix(va[0], vb[0], lambda r, c: interp.call(f, [va[1](r), vb[1](c)], {}, node))
+
+
+E.EXTERNS["rapidfuzz.distance.Levenshtein.distance"] = rf_lev_weighted
+
+
+@S.spec("unit_weighted")
+def _unit_weighted(interp, args, kwargs, node):
+    """a WeightedLevenshtein instance whose scorer is the unit-cost edit distance"""
+    axioms(interp.ctx, "lev-basic")
+    o = VObj("WeightedLevenshtein", attrs={"__repo_instance__": True})
+    o.attrs["_scorer"] = VFunc("pyfn", "lev_scorer", data=lambda i2, a, kw, n2: VInt(lev_f(a[0].term, a[1].term)))
+    return o
+
+
+@S.spec("condensed_scores")
+def _condensed_scores(interp, args, kwargs, node):
+    """the SciPy condensed vector of pairwise scores: v[m*i + j - (i+2)(i+1)/2] = f(X[i], X[j]) for i < j"""
+    from . import vec
+    f, X = args
+    n, at = E.ordered_view(interp, X, node)
+    ctx = interp.ctx
+    g = ctx.fresh_fun("cond_scores", INT, z3.RealSort())
+    i, j = z3.Int("i!cs"), z3.Int("j!cs")
+    ctx.assume(z3.ForAll([i, j], z3.Implies(z3.And(0 <= i, i < j, j < n),
+                                            g(n * i + j - ((i + 2) * (i + 1)) / 2) == to_real(interp.call(f, [at(i), at(j)], {}, node)))))
+    return interp.born(VList(SymSeq((n * (n - 1)) / 2, lambda k: VReal(g(k), True), vec.T_RealT(np=True)), "ndarray"))
